@@ -8,3 +8,4 @@ pub mod ranges;
 pub mod hx;
 pub mod trackers;
 pub mod workers;
+pub mod shrex;
